@@ -48,7 +48,7 @@ def plan(pid, quick, rng, scenarios):
         for n_, i in enumerate(rng.choice(len(pool), size=k, replace=False)):
             sc = pool[int(i)]
             seed = int(rng.integers(0, 1000))
-            variant = n_ % 2
+            variant = n_ % 3
             if pid == "C01":
                 jobs.append((entry.name, sc, seed, bool(n_ % 2), variant, True))
             else:
@@ -68,13 +68,14 @@ def main_for(pid, tier="quick", seed=0):
     chk.rule = ("scenarios = initial states of PoolGen (pool size 2..%d, every labeled set, candidates None / index "
                 "subsets of the unlabeled samples / arbitrary index sets for sample-wise scorers / feature rows, batch "
                 "sizes {1,2,#cand,#cand+1}, 5 geometry classes incl. duplicates and identical points, label patterns) "
-                "sampled per registered strategy configuration (%d configurations); distinct = (configuration, "
+                "plus seeded larger pools (6-10 samples), sampled per registered strategy configuration (%d configurations); distinct = (configuration, "
                 "scenario); non-trivial = at least 2 candidates" % (4 if quick else 5, len(ENTRIES)))
     chk.model_check("MC_PoolQuery", "MC_PoolQuery.cfg" if quick else "MC_PoolQuery_thorough.cfg")
     chk.model_check("MC_Selection", "MC_Selection.cfg")
     scenarios = chk.generate("PoolGen", "PoolGen.cfg")
     if not quick:
         scenarios += chk.generate("PoolGen", "PoolGen5.cfg")
+    scenarios = scenarios + pc.random_scenarios(rng, len(scenarios) // 2)   # larger pools, conflicting duplicates
     jobs = plan(pid, quick, rng, scenarios)
     traces = pmap(_job, jobs, chunksize=4)
     chk.count(len(traces))
